@@ -26,6 +26,7 @@ def ops_job(op, elem, n, cap, fmask=0, alias=0, afl=0, maxcnt=2, size=None, std=
     if size is not None: defs['VF_SIZE'] = size
     if maxsz is not None: defs['VF_MAXSZ'] = maxsz; defs['VF_AFL'] = afl | A_MAXSZ_; tag += '-M%d' % maxsz
     if sizet is not None: defs['VF_SIZET'] = sizet; tag += '-' + sizet.replace('std::', '').replace('_t', '')
+    if elem == 'Pz': defs['VF_USE_PZ'] = 1
     if bigcnt: defs['VF_BIGCNT'] = 1; tag += '-bigcnt'
     if op.endswith('_il') and elem != 'int' and fmask and not (extra_defs and 'VF_B' in extra_defs):
         defs['VF_B'] = 2; tag += '-b2'   # initializer-list ops instantiate one call site per length: pin the length when faults are on
@@ -145,6 +146,15 @@ def conv_job(src, dst, via=0, ptr=0, n=2, std='c++17', part=0):
     name = 'conv-%s-to-%s-%s-N%d-p%d' % (nm(src), nm(dst), VIA_NAME[via], n, part) + ('' if std == 'c++17' else '-' + std.replace('+', 'p'))
     return Job(name, 'conv', defs, elems=[CONV_IR[dst], CONV_IR[src]], std=std, unwind=10, maxalloc=8, minalloc=n + 1, expect_witness=['normal return'],
                desc='conversion %s -> %s via %s range, construct/assign/insert/append/emplace, all source values' % (src, dst, VIA_NAME[via]))
+
+VINIT_T = {0: ('memptr', 'i64'), 1: ('memptr-aggregate', '%struct.Ag'), 2: ('longlong', 'i64')}
+def vinit_job(vt, n=2, stdalloc=1, std='c++17', part=1, pre=None):
+    defs = {'VF_VT': vt, 'VF_N': n, 'VF_MAXCAP': 16, 'VF_PART': part}
+    if pre is not None: defs['VF_PRE'] = pre
+    if stdalloc: defs['VF_STDALLOC'] = 1
+    name = 'vinit-%s-N%d-%s-p%d%s' % (VINIT_T[vt][0], n, 'stdalloc' if stdalloc else 'vfalloc', part, '' if pre is None else '-pre%d' % pre) + ('' if std == 'c++17' else '-' + std.replace('+', 'p'))
+    return Job(name, 'vinit', defs, elems=[VINIT_T[vt][1]], std=std, unwind=12, maxalloc=16, minalloc=n + 1 if n else 1, expect_witness=['normal return'],
+               desc='value-initialisation / fill shortcuts for a trivial element type whose T() is not all-zero bytes (%s): count ctor, count/value ctor, assign(n,v), resize(n), resize(n,v), emplace_back(); counts and resize targets <= 3, 0..2 elements present before (pinned per job), all values' % VINIT_T[vt][0])
 
 def arch_job(triv, n=2, std='c++17'):
     name = 'arch-%s-N%d' % ('trivial' if triv else 'nontrivial', n) + ('' if std == 'c++17' else '-' + std.replace('+', 'p'))
